@@ -1131,7 +1131,7 @@ fn oracle_line(line: &str, resp: &str) -> Vec<OracleFailure> {
                             // not a corruption of anything that is returned: a flipped bit among the 11 random bytes
                             // of the ZipCrypto header of an EMPTY entry (the check byte is intact, no payload follows
                             // whose key stream could change): the read completes with the original - empty - content
-                            let harmless = a.contains_key("pw") && dmg == "data" && d.out.is_empty() && declared == Some(0);
+                            let harmless = a.contains_key("pw") && matches!(dmg, "data" | "multi") && d.out.is_empty() && declared == Some(0);
                             if stored && !harmless && matches!(dmg, "data" | "crc" | "multi" | "swap" | "trunc") && d.term == "eof" {
                                 fail(format!("damage ({dmg}) of a stored entry went undetected"));
                             }
